@@ -3,6 +3,7 @@ import NriModel.Extracted.ApiSchema
 import NriModel.Lemmas.WireProps
 import NriModel.Lemmas.WireOrder
 import NriModel.Lemmas.WireBytes
+import NriModel.Lemmas.WireDecodeWT
 /-!
 Property theorems for C12 — both wire encodings of every protocol message agree.
 
@@ -139,6 +140,25 @@ example : encode demo 1 (demoVal.set 1 .none) ≠ encode demo 1 (demoVal.set 1 (
 example : encode demo 1 [.str [], .msg [.int 0], .list [], .smap [], .strs [], .int 0, .int 0] = [18, 0] := by
   decide
 example : encode demo 1 [.str [], .none, .list [], .smap [], .strs [], .int 0, .int 0] = [] := by decide
+
+/-- Whatever bytes it is given, the decoder returns only well-typed values: every scalar
+    within the range of its Go type (`int32(v)`, `uint32(v)`, `v != 0` truncations), every
+    string valid UTF-8, map keys distinct, every nested message of the shape of its schema.
+    Hence what it returns re-encodes and decodes to itself (`decode ∘ encode ∘ decode = decode`):
+    non-minimal varints, reordered or split records are normalised away. -/
+theorem C12_decode_welltyped (S : Schema) (hS : S.WF = true) (m : Nat) (bs : Bytes) (v : List Val)
+    (hb : ∀ b ∈ bs, b < 256) (h : decode S m bs = some v) :
+    WellTyped S m v = true ∧
+    ((encode S m v).length < 2 ^ 64 → decode S m (encode S m v) = some v) := by
+  have hw := decode_wt S hS m bs v hb h
+  exact ⟨hw, C12_roundtrip S hS m v hw⟩
+
+-- Outer{ code: 5 written as the padded varint 85 00, then flag twice (last wins) }
+example : decode demo 1 [48, 133, 0, 56, 0, 56, 1] =
+    some [.str [], .none, .list [], .smap [], .strs [], .int 5, .int 1] := by rfl
+-- an int32 field given a 64-bit varint keeps the low 32 bits, as Go's int32(v) does
+example : decode demo 1 [48, 255, 255, 255, 255, 31] =
+    some [.str [], .none, .list [], .smap [], .strs [], .int (-1), .int 0] := by rfl
 
 /-- **Field order is free**: the records of the fields of a message, written in any order
     of the fields (the records of one repeated field or map kept together), decode to the
